@@ -322,6 +322,33 @@ def register(T, repo):
                                    None, 'descr'),
             post_objs=[('parser', lambda A: A['parser'],
                         lambda A: pm.ParserS(A['src']))]))
+    # explicit assumption NonEmptyFirstTextToken: the first Text token of a
+    # token list handed to cap_first has at least one character (tokens made
+    # by the scanner are single characters; `Ok` does not state it for
+    # generated tokens).  Injected at the statement that reads txt[0].
+    import ast as _ast
+
+    def capfirst_hook(ex, stmt, st, fi):
+        if isinstance(stmt, _ast.Assign) and \
+                isinstance(stmt.targets[0], _ast.Attribute) and \
+                stmt.targets[0].attr == 'txt' and \
+                isinstance(stmt.targets[0].value, _ast.Subscript):
+            lst, i = st.env.get('toks'), st.env.get('i')
+            if isinstance(lst, TokList) and i is not None:
+                e = ex.list_get(lst, i, st, stmt.lineno, check=False)
+                o = e.obj if isinstance(e, Opt) else e
+                if isinstance(o, Obj) and 'txt' in o.fields:
+                    st.assume(zint(seq_len(o.fields['txt'])) >= 1)
+                    ex.used_assumptions.add(
+                        'NonEmptyFirstTextToken (assumed at `txt[0]` in '
+                        'glossaries.cap_first)')
+    T.stmt_hooks[G + 'cap_first'] = capfirst_hook
+
+    # modify_description is verified with the real body of cap_first
+    # inlined (cap_first is also called on glossary tokens, whose positions
+    # are meaningless: two different element predicates)
+    T.force[G + 'modify_description'] = (G + 'cap_first',)
+    T.inline_ok.add(G + 'cap_first')
     for nm in ('get_tokens', 'modify_description'):
         if T.get(G + nm) is not None:
             T.add_flows_grow(T.get(G + nm), 'parser')
